@@ -86,6 +86,7 @@ type FnCtx struct {
 	usedSums      map[string]bool
 	knownArrays   map[string]bool
 	boxed         map[string]Val // composite values boxed into interfaces, by interface term
+	revOf         map[string]string // sort.Reverse(x): the reversed view's interface term -> x's term
 	assertsSeen   map[string]bool
 	stackRefs     map[string]bool // refs of non-escaping local variables
 	siteOrd       map[ssa.Instruction]int
